@@ -166,6 +166,17 @@ def step (st : St) (line : String) : St × String :=
       match hexNat k with
       | some k => (st, verdict (showItems ((Spec.allLive st.hist k).map showRecP)) out)
       | none => (st, "skip")
+    | [q, k] =>
+      -- C10: a filter must never answer "definitely absent" for a key that has a record in some blob
+      if q == "cf" || q == "cfs" then
+        match hexNat k with
+        | some k =>
+          let stored := st.hist.any (fun b => b.2.any (fun r => r.key == k))
+          if stored && (out == "some false" || out == "no") then
+            (st, s!"MISMATCH false-negative: key is stored but the filters answered [{out}]")
+          else (st, "ok")
+        | none => (st, "skip")
+      else (st, "skip")
     | ["counts"] => (st, verdict (expectedCounts st) out)
     | _ => (st, "skip")
   | _ => (st, "skip")
